@@ -485,6 +485,118 @@ def is_copy_of(e):
     return None
 
 
+def _class_of_ctor(ck, fa, call):
+    """the class of the repository a call `C(...)` constructs, or None"""
+    f = call.func
+    if not isinstance(f, ast.Name):
+        return None
+    ci = fa.fi.module.classes.get(f.id)
+    if ci is None:
+        named = ck.repo.classes_named(f.id)
+        ci = named[0] if len(named) == 1 and f.id in (getattr(fa.fi.module, "imports", {}) or {}) else None
+    return ci
+
+
+def ctor_fields(ck, fa, call):
+    """{field: argument expression} for a call that constructs an object of a class of the repository: the fields that
+    are bound to a constructor argument as it is and stay bound to it — a dataclass / NamedTuple field, or `self.f = p`
+    written once, unconditionally, in __init__ — and that no method of the class re-binds.  Other fields are left out."""
+    ci = _class_of_ctor(ck, fa, call)
+    if ci is None or any(isinstance(a, ast.Starred) for a in call.args) or any(k.arg is None for k in call.keywords):
+        return {}
+    init = ci.methods.get("__init__")
+    binding = {}    # field -> parameter
+    if init is not None:
+        params = init.params[1:]
+        va = init.node.args
+        if va.vararg is not None or va.kwarg is not None:
+            return {}
+        count = {}
+        for n in ast.walk(init.node):
+            if isinstance(n, ast.Attribute) and isinstance(n.ctx, (ast.Store, ast.Del)) and A.dotted(n.value) == "self":
+                count[n.attr] = count.get(n.attr, 0) + 1
+        for st in init.node.body:
+            if isinstance(st, ast.AnnAssign) and st.value is not None:
+                tg, v = [st.target], st.value
+            elif isinstance(st, ast.Assign):
+                tg, v = st.targets, st.value
+            else:
+                continue
+            for t in tg:
+                if isinstance(t, ast.Attribute) and A.dotted(t.value) == "self" and isinstance(v, ast.Name) and v.id in params and count.get(t.attr) == 1 \
+                        and not any(isinstance(x, ast.Name) and x.id == v.id and isinstance(x.ctx, ast.Store) for x in ast.walk(init.node)):
+                    binding[t.attr] = v.id
+    else:
+        decos = {A.dotted(d.func if isinstance(d, ast.Call) else d) for d in ci.node.decorator_list}
+        bases = {A.dotted(b) for b in ci.node.bases}
+        if not (decos & {"dataclass", "dataclasses.dataclass"} or bases & {"NamedTuple", "typing.NamedTuple"}) \
+                or (bases - {"NamedTuple", "typing.NamedTuple", "object"}):
+            return {}
+        params = [st.target.id for st in ci.node.body if isinstance(st, ast.AnnAssign) and isinstance(st.target, ast.Name)
+                  and "ClassVar" not in A.norm(st.annotation)]
+        binding = {p_: p_ for p_ in params}
+    for name, m in ci.methods.items():
+        if name == "__init__":
+            continue
+        for n in ast.walk(m.node):
+            if isinstance(n, ast.Attribute) and isinstance(n.ctx, (ast.Store, ast.Del)) and n.attr in binding:
+                binding.pop(n.attr)
+    out = {}
+    for f_, p_ in binding.items():
+        v = A.kwarg(call, p_)
+        if v is None and p_ in params and params.index(p_) < len(call.args):
+            v = call.args[params.index(p_)]
+        if v is not None:
+            out[f_] = v
+    return out
+
+
+def resolve_object_fields(ck, fa, expr, at):
+    """`expr` with every read `x.f` of a field of an object that this function constructed (a method object, a record
+    of the invocation: `x = C(..., f=v, ...)`) replaced by the argument the field was bound to, provided nothing —
+    neither the class nor this function — re-binds that field.  The argument is expanded where the object is made."""
+    stored = {n.attr for n in ast.walk(fa.node) if isinstance(n, ast.Attribute) and isinstance(n.ctx, (ast.Store, ast.Del))}
+
+    class T(ast.NodeTransformer):
+        def visit_Attribute(self, n):
+            self.generic_visit(n)
+            if isinstance(n.ctx, ast.Load) and isinstance(strip_cast(n.value), ast.Call) and n.attr not in stored:
+                # (the expansion has already put the constructing call in the place of the local)
+                fields = ctor_fields(ck, fa, strip_cast(n.value))
+                if n.attr in fields:
+                    return strip_cast(fields[n.attr])
+            if isinstance(n.ctx, ast.Load) and isinstance(n.value, ast.Name) and n.attr not in stored:
+                o = origin(fa, n.value, at)
+                v = strip_cast(o.value) if o is not None and o.value is not None else None
+                if isinstance(v, ast.Call):
+                    fields = ctor_fields(ck, fa, v)
+                    if n.attr in fields:
+                        try:
+                            return strip_cast(fa.expand(fields[n.attr], o.node))
+                        except AnalysisError:
+                            return copy.deepcopy(fields[n.attr])
+            return n
+
+    return ast.fix_missing_locations(T().visit(copy.deepcopy(expr)))
+
+
+def body_call(ck, rl):
+    """(FA, call): the one place where the function body is run (`<memento_fn>._filter_call(...)`), in memento_run_local
+    itself or in a function defined inside it (a closure / generator the invocation is written with)."""
+    found = [(rl, c) for c in rl.calls("_filter_call")]
+
+    def rec(fi):
+        for nf in fi.nested.values():
+            nfa = FA(ck, nf)
+            found.extend((nfa, c) for c in nfa.calls("_filter_call"))
+            rec(nf)
+
+    rec(rl.fi)
+    if len(found) != 1:
+        raise AnalysisError("%s: expected exactly one _filter_call (function body) call, found %d" % (rl.qual, len(found)))
+    return found[0]
+
+
 class FlatInit:
     """FunctionReferenceWithArguments.__init__ with its private helpers flattened in, and the objects the
     key is made of: `ek` (the definition creating what self.effective_kwargs finally holds), `hk` (the
@@ -1403,17 +1515,25 @@ def check(ck):
     ck.ob(R1, init.key(None, "context-args-of-this-call"), oko, "self.context_args is made from the context args given to this construction only" if oko else why_o,
           init.where(st_o) if st_o is not None else init.where())
     rl = FA(ck, "runner_local.memento_run_local")
-    body = rl.one(rl.calls("_filter_call"), "_filter_call (function body) call")
+    bfa, body = body_call(ck, rl)
     p_ref = "fn_reference_with_args" if "fn_reference_with_args" in rl.fi.params else (rl.fi.params[1] if len(rl.fi.params) > 1 else "")
-    okb = not body.args and len(body.keywords) == 1 and body.keywords[0].arg is None
+    okb = not body.args and len(body.keywords) == 1 and body.keywords[0].arg is None and bool(bfa.nodes(body))
     if okb:
-        # what is spread into the call: the effective kwargs themselves or a plain copy of them
-        e_ = strip_cast(rl.expand(body.keywords[0].value, rl.nodes(body)[0]))
+        # what is spread into the call: the effective kwargs of the reference this invocation was given (read off the
+        # parameter, or off a record / method object of the invocation that was constructed with it), or a plain copy
+        at_b = bfa.nodes(body)[0]
+        e_ = strip_cast(resolve_object_fields(ck, bfa, bfa.expand(body.keywords[0].value, at_b), at_b))
         while is_copy_of(e_) is not None:
             e_ = strip_cast(is_copy_of(e_))
-        okb = A.norm(e_) == p_ref + ".effective_kwargs" and all(d.kind == "param" for d in rl.df.reaching(rl.nodes(body)[0], p_ref))
+        okb = A.norm(e_) == p_ref + ".effective_kwargs"
+        if bfa is rl:
+            okb = okb and all(d.kind == "param" for d in rl.df.reaching(at_b, p_ref))
+        else:
+            # a free variable of the inner function: the parameter of memento_run_local, which nothing re-binds
+            okb = okb and p_ref not in bfa.fi.params and not bfa.df.reaching(at_b, p_ref) \
+                and not any(isinstance(n_, ast.Name) and n_.id == p_ref and isinstance(n_.ctx, (ast.Store, ast.Del)) for n_ in ast.walk(rl.node))
     ck.ob(R1, rl.key(body, "body-args"), okb, "the body receives exactly the effective kwargs (no context args)" if okb else
-          "the body is not called with **fn_reference_with_args.effective_kwargs", rl.where(body))
+          "the body is not called with **fn_reference_with_args.effective_kwargs", bfa.where(body))
 
     # ---- R2
     rb = FA(ck, "runner_local.memento_run_batch")
